@@ -110,7 +110,7 @@ func (sc *RevScenario) cancelInstant(obs *RevObs, co *CallObs) (time.Time, bool)
 		tc = obs.T0.Add(sc.CancelAfter + cancelOffset)
 	case CancelOnXchg:
 		for _, x := range obs.Net.All() {
-			if x.Rec.CancelledHere && (tc.IsZero() || x.Rec.TClosed.Before(tc)) {
+			if x.Rec.CancelledHere && x.Rec.CallerID == co.World.callerKeyOf(co.Rep) && (tc.IsZero() || x.Rec.TClosed.Before(tc)) {
 				tc = x.Rec.TClosed
 			}
 		}
